@@ -42,6 +42,7 @@ def draw_cfg(st):
     world = ["seq", "threads", "async"][st.weighted([50, 30, 20], "world")]
     cfg = {
         "world": world,
+        "wide": st.choose(4, "wide") == 3,
         # with failing destinations a report about the remote action's end message is logged in whatever
         # context the calling thread is left with; in a *copied* context that is the originating thread's
         # Action, used from two threads at once -- which eliot documents as unsupported -- so that
@@ -80,6 +81,9 @@ def draw_cfg(st):
         cfg["spawn_kinds"] = ["remote", "preserve"]
         w_ops = [6, 6, 1, 1, 1, 0, 1]
     cfg["w_ops"] = w_ops
+    # an action's with block entered in one contextvars Context and left (generator close) from another,
+    # after which the first Context logs again
+    cfg["w_destop"] = st.choose(2, "xctx_leave")
     nf = st.weighted([3, 4, 2, 1], "n-faulty")
     cfg["faulty"] = [[list(MASKS[st.choose(len(MASKS), "mask")]), st.choose(6, "exc-kind"),
                       st.choose(2, "before-tap")] for _ in range(nf)]
@@ -93,7 +97,34 @@ def draw_cfg(st):
     return cfg
 
 
+def op_xctx_leave(interp, op, env):
+    """`with action:` inside a generator that is advanced in Context A and closed from Context B (another
+    task's clean-up, a finalizer).  Unsupported as far as the generator goes -- the close may be refused and
+    the action then never ends -- but whatever ends up in the log must still be placed consistently: if an end
+    message is written, nothing logged afterwards by Context A (where the action is still current) may be
+    numbered after it."""
+    import contextvars
+    rc = interp.rc
+    e = rc.eliot
+
+    def g():
+        with e.start_task(action_type="x:entered-elsewhere"):
+            yield 1
+
+    gen = g()
+    rc.live_gens.append(gen)
+    ctx = contextvars.copy_context()
+    ctx.run(next, gen)
+    try:
+        gen.close()
+    except (ValueError, RuntimeError):
+        rc.probe("foreign_close_refused")
+    rc.probe("block_left_from_another_context")
+    ctx.run(lambda: interp.api(("msg-x", 0), e.log_message, message_type="x:later"))
+
+
 def setup(rc, interp):
+    rc.custom_ops["destop"] = op_xctx_leave
     rc.tap = Tap(rc)
     before = []
     after = []
